@@ -1,7 +1,7 @@
 #!/bin/bash
 # runs every registered check once: runall.sh [quick|thorough] [seed]
 TIER="${1:-quick}"; export VERIF_SEED="${2:-1}"
-cd /verif
+cd "$(dirname "${BASH_SOURCE[0]}")/../.."
 for id in $(grep -v '^#' harness/checks.conf | awk 'NF>=3{print $1}' | sort -u); do
   out=$(./check "$id" "$TIER" 2>&1)
   rc=$?
